@@ -146,6 +146,7 @@ type anNode struct {
 	msgC    chan *common.MessagePublication
 	obsvC   chan *gossipv1.ObservationRequest
 	reqTxs  []int
+	reqValid int // re-observation requests for this watcher that were put on its channel
 	spinKey string
 	spinN   int
 	spun    bool
@@ -382,8 +383,12 @@ func (nd *anNode) apply(op anOp) {
 		}
 		hash := append(append([]byte{}, h[:]...), 1, 2, 3, 4)[:hl]
 		a["chain"], a["len"] = int(chain), hl
+		a["dropped"] = false
 		select {
 		case nd.obsvC <- &gossipv1.ObservationRequest{ChainId: chain, TxHash: hash}:
+			if chain == uint32(vaa.ChainIDAlephium) && hl == 32 {
+				nd.reqValid++ // the re-observer must take it: one tx-status request per such request
+			}
 		default:
 			a["dropped"] = true
 		}
@@ -836,12 +841,16 @@ func anRunScenario(t *testing.T, sc *anScenario, tr *anTrace) {
 				missing = append(missing, id)
 			}
 		}
+		untaken := nd.reqValid - nd.served["status"]
+		if untaken < 0 {
+			untaken = 0
+		}
 		scriptDone := nd.next >= len(nd.sc.Steps)
 		settled := now.Sub(nd.lastAct) >= time.Duration(sc.SettleMs)*time.Millisecond
-		end := nd.spun || (scriptDone && settled && (len(missing) == 0 || now.After(deadline))) ||
+		end := nd.spun || (scriptDone && settled && ((len(missing) == 0 && untaken == 0) || now.After(deadline))) ||
 			now.After(deadline.Add(5*time.Second))
 		if end {
-			nd.log("End", map[string]interface{}{"missing": missing, "spin": nd.spun, "scriptDone": scriptDone,
+			nd.log("End", map[string]interface{}{"missing": missing, "untaken": untaken, "spin": nd.spun, "scriptDone": scriptDone,
 				"ms": int(now.Sub(start) / time.Millisecond), "exits": nd.exits})
 			nd.closed = true
 			nd.mu.Unlock()
